@@ -251,6 +251,22 @@ func gen(r *hx.Rand, tier string) []json.RawMessage {
 		add(input{Kind: "redirect", Allow: al, URL: "https://8.8.4.4/v1/chat/completions", Chain: ch})
 	}
 
+	// ---- names served by the resolver stub: several addresses, rebinding between check and dial
+	stubNames := []string{"pub.test", "pub2.test", "int.test", "mixed.test", "mixed-last.test", "mixed6.test", "mapped.test", "linklocal.test",
+		"metadata.test", "zero.test", "rebind.test", "rebind-mix.test", "rebind6.test", "unbind.test", "cgnat.test", "localpub.test",
+		"empty.test", "nx.test", "MIXED.Test", "mixed.test."}
+	for _, n := range stubNames {
+		for ph := 0; ph < 2; ph++ {
+			add(input{Kind: "guard", URL: "https://" + n + "/v1/chat/completions", Phase: ph})
+			add(input{Kind: "dial", Addr: n + ":443", Phase: ph})
+		}
+		add(input{Kind: "redirect", URL: "http://8.8.8.8/start", Chain: []string{"http://pub.test/a", "https://" + n + "/x", "http://pub2.test/"}})
+		add(input{Kind: "e2e", Spell: "http://" + n + ":%PORT%/v1"})
+	}
+	add(input{Kind: "e2e", Allow: "1", Spell: "http://rebind-local.test:%PORT%/"}) // opt-in: the rebound name does reach the local server
+	add(input{Kind: "e2e", Spell: "http://rebind-local.test:%PORT%/"})
+	add(input{Kind: "e2e", Spell: "http://flip-local.test:%PORT%/"}) // reached only if the dialer resolved the name once more
+
 	// ---- end to end against a local server
 	for _, s := range []string{"http://127.0.0.1:%PORT%/", "http://localhost:%PORT%/", "http://[::ffff:127.0.0.1]:%PORT%/",
 		"http://[::ffff:7f00:1]:%PORT%/", "http://[::1]:%PORT%/", "http://2130706433:%PORT%/", "http://0x7f000001:%PORT%/",
